@@ -37,16 +37,17 @@ fn stub_bijoy(s: &str) -> String {
 
 // ---------------------------------------------------------------- C01 / C03: key table
 
-/// C01: every key code published in riti.h has a character (phonetic get_suggestion calls
-/// keycode_to_char unconditionally, fixed get_suggestion after a layout hit), and the
-/// character is printable ASCII (the byte slicing in the phonetic engine relies on it).
+/// C01: the key table is total on all 2^16 key codes (no panic arm), and whatever character it
+/// yields is printable ASCII (the byte slicing in the phonetic engine relies on it).
 #[kani::proof]
 fn k_keycode_total() {
     let k: u16 = kani::any();
-    kani::assume(is_published_key(k));
     let c = keycode_to_char(k);
-    kani::cover!(true, "reached");
-    assert!((c as u32) >= 0x20 && (c as u32) < 0x7f, "key character is printable ASCII");
+    kani::cover!(c.is_some(), "a key with a character is reachable");
+    kani::cover!(c.is_none(), "a key without a character is reachable");
+    if let Some(c) = c {
+        assert!((c as u32) >= 0x20 && (c as u32) < 0x7f, "key character is printable ASCII");
+    }
 }
 
 /// C03: the key -> character table equals the table transcribed from the key *names*.
@@ -58,7 +59,7 @@ fn k_keycode_table() {
     kani::assume(want != '\0'); // keys whose name denotes no character are C01's business
     let c = keycode_to_char(k);
     kani::cover!(true, "reached");
-    assert!(c == want, "keycode_to_char agrees with the key-name table");
+    assert!(c == Some(want), "keycode_to_char agrees with the key-name table");
 }
 
 // ---------------------------------------------------------------- C04: modifier bits
